@@ -13,7 +13,7 @@ GEN = ["Router", "PyRouter"]
 RULE = ("paths = stem x '.' x extension x case variant (+ compound, dot-only, URL-like, unicode stems), "
         "extensions drawn from router tables, README, mimetypes.types_map; x mimetypes configs "
         "(default / emptied / hostile add_type). distinct = distinct (lowered path, mime answer) pairs; "
-        "non-trivial = path has an extension or a MIME answer")
+        "non-trivial = path has an extension or a MIME answer; mime-only = data: URLs (the MIME answer comes from the string, often without any dot)")
 ASSUMPTIONS = [
     "str.lower() is CPython's; the model receives the lowered path",
     "mimetypes.guess_type is a parameter of the model (any answer allowed in the theorems); it must not raise",
@@ -144,6 +144,14 @@ def _paths(ctx):
                 paths.append(("url-decorated", pre + "." + rng.choice(_case_variants(rng, e)) + deco))
     for s in stems:
         paths.append(("no-ext", s))
+    # path strings whose MIME answer comes from the string itself, not from an extension: mimetypes.guess_type reads the
+    # media type out of a `data:` URL.  Many of them contain no '.' at all, so the MIME fallback of BOTH entry points is
+    # the only thing that can decide them (a shortcut for dot-less names in one of the two is invisible elsewhere).
+    from sharepoint2text.parsing.mime_types import MIME_TYPE_MAPPING
+    for m in sorted(MIME_TYPE_MAPPING) + ["application/x-unknown", "text/x-nothing", "", "plain"]:
+        for form in ("data:{m};base64,QUJD", "data:{m},abc", "DATA:{M},x", "data:{m};charset=utf-8,a%20b", "data:{m},a.b",
+                     "data:{m};base64,QUJD.docx", "data:{m}", "Data:{m},"):
+            paths.append(("mime-only", form.format(m=m, M=m.upper())))
     return paths
 
 
